@@ -51,6 +51,11 @@ func (p *Parser) App(code uint32, typ ...string) (*App, error) {
 	if app != nil && (len(app.Type) == 0 || len(typ) == 0 || app.Type == typ[0]) {
 		return app, nil
 	}
+	// An application loaded without a type matches any requested type, even
+	// if the same id was loaded again later with a type of its own.
+	if app = p.apptype[appIdTypeIdx{code, ""}]; app != nil {
+		return app, nil
+	}
 	return nil, ErrApplicationUnsupported
 }
 
